@@ -13,6 +13,7 @@ def c04Op (args : List String) : String :=
   | "mem" :: _ => "proc=1 mem=ok served=true"
   | "memsfo" :: _ => "proc=1 mem=ok alive=1"
   | "fifo" :: _ => "proc=1 fifo=refused"
+  | "bufsize" :: _ => "proc=1 alive=1 served=ok"
   | "maxfile" :: _ => "proc=1 alive=1 open=refused tool=error-exit"
   | _ => "bad-op"
 
